@@ -1,7 +1,7 @@
-\* thorough: every assertion constructible with parameters <= 64 is one initial state; EmitA prints its
+\* thorough: every assertion constructible with parameters <= 128 is one initial state; EmitA prints its
 \* scenario line (fits/steps table over TestLens, overlap codes against the whole universe).
 SPECIFICATION SpecA
-CONSTANTS LMax = 64  SetLen = 8  SetWidth = 2
+CONSTANTS LMax = 128  SetLen = 8  SetWidth = 2
   Cols <- ColsTwo  TestLens <- TestLensAll
 INVARIANT UniverseValid StepsWellFormed EmitA
 CHECK_DEADLOCK FALSE
